@@ -82,9 +82,13 @@ def find_return_stmts_recursive(stmts: list[mp_nodes.Statement] | list[mp_nodes.
     return return_stmts
 
 
-def mypy_variance_parser(mypy_variance_type: Literal[0, 1, 2]) -> VarianceKind:
+def mypy_variance_parser(mypy_variance_type: Literal[0, 1, 2, 3]) -> VarianceKind:
     match mypy_variance_type:
         case 0:
+            return VarianceKind.INVARIANT
+        case 3:
+            # The type parameter of a class with a type parameter list (class A[T]) declares no variance, the type
+            # checker infers it when it needs it
             return VarianceKind.INVARIANT
         case 1:
             return VarianceKind.COVARIANT
